@@ -26,8 +26,9 @@
 import LemoModel.Sync
 import LemoProofs.Lemmas.Sync
 import LemoProofs.Lemmas.SyncLoop
+import LemoProofs.Lemmas.SyncConfirm
 namespace LemoProofs.C20
-open LemoModel.Sync LemoProofs.SyncLemmas LemoProofs.SyncLoop
+open LemoModel.Sync LemoProofs.SyncLemmas LemoProofs.SyncLoop LemoProofs.SyncConfirm
 
 /-! ## BlockCache as a sorted multimap -/
 
@@ -37,15 +38,16 @@ inductive Op where
   | clear (h : Nat)
   | iterate (f : Blk → Bool)
 
-def stepOp (addF : Blk → BlockCache → BlockCache) : Op → BlockCache → BlockCache
+/-- `prune`: `Iterate` drops emptied entries (the code since commit 6f06589) -/
+def stepOp (addF : Blk → BlockCache → BlockCache) (prune : Bool) : Op → BlockCache → BlockCache
   | .add b, c => addF b c
   | .remove b, c => remove b c
   | .clear h, c => clear h c
-  | .iterate f, c => (iterate (fun (_ : Unit) b => ((), f b)) () c).2.1
+  | .iterate f, c => (iterateP prune (fun (_ : Unit) b => ((), f b)) () c).2.1
 
-def run (addF : Blk → BlockCache → BlockCache) : List Op → BlockCache → BlockCache
+def run (addF : Blk → BlockCache → BlockCache) (prune : Bool) : List Op → BlockCache → BlockCache
   | [], c => c
-  | op :: ops, c => run addF ops (stepOp addF op c)
+  | op :: ops, c => run addF prune ops (stepOp addF prune op c)
 
 /-- the specification: a set of blocks (a block carries its height, so this is the multimap) -/
 def specStep : Op → List Blk → List Blk
@@ -64,14 +66,14 @@ def Guard : List Op → BlockCache → Prop
   | op :: ops, c =>
     (match op with
       | .add b => strictMiddle b.height c.cache = false
-      | _ => True) ∧ Guard ops (stepOp add op c)
+      | _ => True) ∧ Guard ops (stepOp add false op c)
 
 /-- one step refines the specification, for any `Add` that refines multimap insertion on `c` -/
-theorem step_refines (addF : Blk → BlockCache → BlockCache) (op : Op) (c : BlockCache) (s : List Blk)
+theorem step_refines (addF : Blk → BlockCache → BlockCache) (prune : Bool) (op : Op) (c : BlockCache) (s : List Blk)
     (hc : WF c) (hs : ∀ x, x ∈ blocksOf c.cache ↔ x ∈ s)
     (hadd : ∀ b, op = .add b →
       WF (addF b c) ∧ ∀ x, x ∈ blocksOf (addF b c).cache ↔ x = b ∨ x ∈ blocksOf c.cache) :
-    WF (stepOp addF op c) ∧ ∀ x, x ∈ blocksOf (stepOp addF op c).cache ↔ x ∈ specStep op s := by
+    WF (stepOp addF prune op c) ∧ ∀ x, x ∈ blocksOf (stepOp addF prune op c).cache ↔ x ∈ specStep op s := by
   cases op with
   | add b =>
     obtain ⟨h1, h2⟩ := hadd b rfl
@@ -98,7 +100,7 @@ theorem step_refines (addF : Blk → BlockCache → BlockCache) (op : Op) (c : B
     rw [mem_clear_sorted h c.cache hc.sorted hc.hts x, hs x]
     simp
   | iterate f =>
-    obtain ⟨h1, _, h3, _⟩ := iterate_wf (fun (_ : Unit) b => ((), f b)) () c hc
+    obtain ⟨h1, _, h3, _⟩ := iterateP_wf prune (fun (_ : Unit) b => ((), f b)) () c hc
     refine ⟨h1, fun x => ?_⟩
     simp only [stepOp, specStep]
     rw [h3 x, visitKeys_pure (fun (_ : Unit) b => ((), f b)) f (fun _ _ => rfl), hs x]
@@ -120,27 +122,27 @@ theorem step_refines (addF : Blk → BlockCache → BlockCache) (op : Op) (c : B
     no duplicate) and denotes exactly the multimap the specification computes. -/
 theorem cache_refines_multimap_partial : ∀ (ops : List Op) (c : BlockCache) (s : List Blk),
     WF c → (∀ x, x ∈ blocksOf c.cache ↔ x ∈ s) → Guard ops c →
-    WF (run add ops c) ∧ ∀ x, x ∈ blocksOf (run add ops c).cache ↔ x ∈ specRun ops s
+    WF (run add false ops c) ∧ ∀ x, x ∈ blocksOf (run add false ops c).cache ↔ x ∈ specRun ops s
   | [], c, s, hc, hs, _ => ⟨hc, hs⟩
   | op :: ops, c, s, hc, hs, hg => by
     obtain ⟨hg1, hg2⟩ := hg
-    have hst := step_refines add op c s hc hs (by
+    have hst := step_refines add false op c s hc hs (by
       intro b hb
       subst hb
       exact addWith_refines middleInsert b c hc (midOk_guard b c hc.sorted hg1))
-    exact cache_refines_multimap_partial ops (stepOp add op c) (specStep op s) hst.1 hst.2 hg2
+    exact cache_refines_multimap_partial ops (stepOp add false op c) (specStep op s) hst.1 hst.2 hg2
 
 /-- **cache_refines_multimap_fixed** (HEADLINE; `addFixed` is the `Add` of /repo since commit bca2980):
     the full theorem, no guard. -/
-theorem cache_refines_multimap_fixed : ∀ (ops : List Op) (c : BlockCache) (s : List Blk),
+theorem cache_refines_multimap_fixed (prune : Bool) : ∀ (ops : List Op) (c : BlockCache) (s : List Blk),
     WF c → (∀ x, x ∈ blocksOf c.cache ↔ x ∈ s) →
-    WF (run addFixed ops c) ∧ ∀ x, x ∈ blocksOf (run addFixed ops c).cache ↔ x ∈ specRun ops s
+    WF (run addFixed prune ops c) ∧ ∀ x, x ∈ blocksOf (run addFixed prune ops c).cache ↔ x ∈ specRun ops s
   | [], c, s, hc, hs => ⟨hc, hs⟩
   | op :: ops, c, s, hc, hs => by
-    have hst := step_refines addFixed op c s hc hs (by
+    have hst := step_refines addFixed prune op c s hc hs (by
       intro b _
       exact addWith_refines middleInsertFixed b c hc (midOk_fixed b c))
-    exact cache_refines_multimap_fixed ops (stepOp addFixed op c) (specStep op s) hst.1 hst.2
+    exact cache_refines_multimap_fixed prune ops (stepOp addFixed prune op c) (specStep op s) hst.1 hst.2
 
 /-- what well-formedness means for an observer: strictly ascending heights, and no block twice -/
 theorem wf_sorted_nodup (c : BlockCache) (h : WF c) :
@@ -165,10 +167,10 @@ theorem wf_sorted_nodup (c : BlockCache) (h : WF c) :
 
 /-- **iterate_visits_ascending**: on a well-formed cache `Iterate` hands every cached block to the
     callback exactly once (the visits concatenate to the multimap) in strictly ascending height. -/
-theorem iterate_visits_ascending {σ : Type} (f : σ → Blk → σ × Bool) (s : σ) (c : BlockCache) (hc : WF c) :
-    ((iterate f s c).2.2.map (·.1)).Pairwise (· < ·) ∧
-    (iterate f s c).2.2.flatMap (·.2) = blocksOf c.cache := by
-  obtain ⟨_, _, _, h4⟩ := iterate_wf f s c hc
+theorem iterate_visits_ascending {σ : Type} (prune : Bool) (f : σ → Blk → σ × Bool) (s : σ) (c : BlockCache) (hc : WF c) :
+    ((iterateP prune f s c).2.2.map (·.1)).Pairwise (· < ·) ∧
+    (iterateP prune f s c).2.2.flatMap (·.2) = blocksOf c.cache := by
+  obtain ⟨_, _, _, h4, _⟩ := iterateP_wf prune f s c hc
   rw [h4]
   constructor
   · rw [List.map_map, List.pairwise_map]
@@ -184,27 +186,27 @@ def B (h : Nat) : Blk := { height := h, hash := h, parent := h - 1 }
 /-- (code before commit bca2980) heights 1,3,4 then 2: the entry of height 4 is overwritten — block 4 is LOST -/
 theorem cache_refines_multimap_refuted_lost :
     B 4 ∈ specRun [.add (B 1), .add (B 3), .add (B 4), .add (B 2)] [] ∧
-    B 4 ∉ blocksOf (run add [.add (B 1), .add (B 3), .add (B 4), .add (B 2)] {}).cache := by decide
+    B 4 ∉ blocksOf (run add false [.add (B 1), .add (B 3), .add (B 4), .add (B 2)] {}).cache := by decide
 
 /-- (code before commit bca2980) same witness: block 2 is reachable through two entries (one aliased object) and `Size` is 4 for 3 blocks -/
 theorem cache_refines_multimap_refuted_duplicate :
-    ((run add [.add (B 1), .add (B 3), .add (B 4), .add (B 2)] {}).cache.map (fun g => (g.gid, g.height)))
+    ((run add false [.add (B 1), .add (B 3), .add (B 4), .add (B 2)] {}).cache.map (fun g => (g.gid, g.height)))
       = [(0, 1), (1, 3), (3, 2), (3, 2)] ∧
-    size (run add [.add (B 1), .add (B 3), .add (B 4), .add (B 2)] {}) = 4 := by decide
+    size (run add false [.add (B 1), .add (B 3), .add (B 4), .add (B 2)] {}) = 4 := by decide
 
 /-- (code before commit bca2980) heights 1,5 then 3: the new entry lands AFTER its larger neighbour — unsorted (minimal witness) -/
 theorem cache_refines_multimap_refuted_unsorted :
-    (run add [.add (B 1), .add (B 5), .add (B 3)] {}).cache.map (·.height) = [1, 5, 3] := by decide
+    (run add false [.add (B 1), .add (B 5), .add (B 3)] {}).cache.map (·.height) = [1, 5, 3] := by decide
 
 /-- (code before commit 2a76dcb) `IsExit` only looks at the first entry: a cached block of the second entry is reported absent -/
 theorem isExit_refuted :
-    B 2 ∈ blocksOf (run add [.add (B 1), .add (B 2)] {}).cache ∧
-    isExit (B 2).hash 2 (run add [.add (B 1), .add (B 2)] {}) = false := by decide
+    B 2 ∈ blocksOf (run add false [.add (B 1), .add (B 2)] {}).cache ∧
+    isExit (B 2).hash 2 (run add false [.add (B 1), .add (B 2)] {}) = false := by decide
 
 /-- after the drain emptied the first entry, `FirstHeight` still names it (the timer then asks the peer
     for the parent of a block that is no longer cached) -/
 theorem firstHeight_stale :
-    let c := run add [.add (B 5), .add (B 9), .iterate (fun b => b.height == 5)] {}
+    let c := run add false [.add (B 5), .add (B 9), .iterate (fun b => b.height == 5)] {}
     blocksOf c.cache = [B 9] ∧ firstHeight c = 5 := by decide
 
 /-- (code before commit 9829a42) `Add` that makes the slice longer than the limit never returns
@@ -226,6 +228,35 @@ theorem add_deadlocks (limit : Nat) (b : Blk) (c : BlockCache) (hlen : c.cache.l
     simp at hlen
     simp [← hlen]
 
+
+/-! ### `FirstHeight` on the current code -/
+
+theorem noEmpty_run : ∀ (ops : List Op) (c : BlockCache), WF c → NoEmpty c.cache →
+    WF (run addFixed true ops c) ∧ NoEmpty (run addFixed true ops c).cache
+  | [], c, hc, hn => ⟨hc, hn⟩
+  | op :: ops, c, hc, hn => by
+    have hw : WF (stepOp addFixed true op c) :=
+      (step_refines addFixed true op c (blocksOf c.cache) hc (fun _ => Iff.rfl) (by
+        intro b _
+        exact addWith_refines middleInsertFixed b c hc (midOk_fixed b c))).1
+    have hne : NoEmpty (stepOp addFixed true op c).cache := by
+      cases op with
+      | add b => exact addWith_noEmpty middleInsertFixed b c hc.sorted (midOk_fixed b c) hn
+      | remove b => exact remove_noEmpty b c hc hn
+      | clear h => exact clear_noEmpty h c hn
+      | iterate f => exact (iterateP_wf true (fun (_ : Unit) b => ((), f b)) () c hc).2.2.2.2.2 rfl
+    exact noEmpty_run ops _ hw hne
+
+/-- **firstHeight_live**: after any sequence of Add/Remove/Clear/Iterate on the code as it is now (repaired
+    `Add`, `Iterate` dropping the entries it emptied), `FirstHeight` is the lowest cached height — the block
+    whose parent the drain timer has to ask for (0 iff nothing is cached).  Before commit 6f06589:
+    `firstHeight_stale`. -/
+theorem firstHeight_live (ops : List Op) :
+    (blocksOf (run addFixed true ops {}).cache = [] ∧ firstHeight (run addFixed true ops {}) = 0) ∨
+    ((∃ b ∈ blocksOf (run addFixed true ops {}).cache, b.height = firstHeight (run addFixed true ops {})) ∧
+      ∀ x ∈ blocksOf (run addFixed true ops {}).cache, firstHeight (run addFixed true ops {}) ≤ x.height) := by
+  obtain ⟨h1, h2⟩ := noEmpty_run ops {} wf_empty (by intro g hg; simp at hg)
+  exact firstHeight_min _ h1 h2
 
 /-! ### the live `Add` and `IsExit` -/
 
@@ -297,7 +328,7 @@ theorem isExitFixed_refines (hash height : Nat) (c : BlockCache) (hc : WF c) :
 def initNode (base : Nat) : Node := { chain := { known := [seg base 0] } }
 
 theorem init_inv (base n : Nat) : Inv base n (initNode base) := by
-  refine ⟨⟨?_, by simp [initNode], ?_⟩, wf_empty, by simp [initNode]⟩
+  refine ⟨⟨?_, by simp [initNode], ?_⟩, wf_empty, by simp [initNode], by simp [initNode, InRange]⟩
   · intro x hx
     simp [initNode] at hx
     exact ⟨0, Nat.zero_le _, hx⟩
@@ -306,20 +337,19 @@ theorem init_inv (base n : Nat) : Inv base n (initNode base) := by
     have := seg_inj hk
     omega
 
-/-- every block of the segment is delivered at least once (any order, any duplication, any batching) -/
+/-- every block of the segment is delivered at least once (any order, any duplication, any batching,
+    from any peer) -/
 def Complete (base n : Nat) (msgs : List Msg) : Prop :=
   ∀ k, 1 ≤ k → k ≤ n → ∃ bs, Msg.blocks bs ∈ msgs ∧ seg base k ∈ bs
 
-theorem addFixed_correct : AddCorrect addFixed :=
-  fun b c hc => addWith_refines middleInsertFixed b c hc (midOk_fixed b c)
-
-/-- **converges**: take ANY `Add` that refines multimap insertion (= assume cache_refines_multimap).
-    Deliver the blocks `1..n` of a valid linear segment in any order, with any duplicates, batched in any
-    way into blocks messages, interleaved with arbitrary confirm messages (before or after their blocks),
-    drain ticks (spawned inserts scheduled immediately or after the tick) and stable-block events; then let
-    the drain timer fire `n` more times.  The chain then knows exactly the blocks `0..n` of the segment and
-    its current height is `base + n` — which is what the in-order delivery produces (`converges_same`). -/
-theorem converges (addF : Blk → BlockCache → BlockCache) (hadd : AddCorrect addF) (base n q : Nat)
+/-- **converges**: take ANY `Add` that, on the caches reachable while the segment is delivered, refines
+    multimap insertion (`AddOk`).  Deliver the blocks `1..n` of ONE valid linear segment in any order, with
+    any duplicates, batched in any way into blocks messages, interleaved with arbitrary confirm messages
+    (before or after their blocks), drain ticks (spawned inserts scheduled immediately or after the tick)
+    and stable-block events; then let the drain timer fire `n` more times.  The chain then knows exactly
+    the blocks `0..n` of the segment and its current height is `base + n` — which is what the in-order
+    delivery produces (`converges_same`).  Sequential handler semantics (one handler at a time). -/
+theorem converges (addF : Blk → BlockCache → BlockCache) (base n q : Nat) (hadd : AddOk base n addF)
     (hbase : 1 ≤ base) (msgs : List Msg) (modes : List Bool)
     (hv : ∀ m ∈ msgs, ValidMsg base n m) (hc : Complete base n msgs) (hm : n ≤ modes.length) :
     (∀ x, x ∈ (runMsgs addF q (initNode base) (msgs ++ modes.map Msg.tick)).chain.known ↔
@@ -329,7 +359,7 @@ theorem converges (addF : Blk → BlockCache → BlockCache) (hadd : AddCorrect 
       = runMsgs addF q (runMsgs addF q (initNode base) msgs) (modes.map Msg.tick) := by
     simp [runMsgs, List.foldl_append]
   rw [e]
-  obtain ⟨r1, _, r3⟩ := run_ok addF hadd base n q hbase msgs (initNode base) (init_inv base n) hv
+  obtain ⟨r1, _, r3⟩ := run_ok addF base n q hadd hbase msgs (initNode base) (init_inv base n) hv
   have hall : ∀ k, 1 ≤ k → k ≤ n → Have base (runMsgs addF q (initNode base) msgs) k := by
     intro k h1 h2
     obtain ⟨bs, hbs, hk⟩ := hc k h1 h2
@@ -375,7 +405,7 @@ theorem inOrder_valid_complete (base n : Nat) :
 
 /-- **converges_same**: any complete delivery ends with the same chain content and the same current
     block as the in-order delivery (both followed by the drain). -/
-theorem converges_same (addF : Blk → BlockCache → BlockCache) (hadd : AddCorrect addF) (base n q : Nat)
+theorem converges_same (addF : Blk → BlockCache → BlockCache) (base n q : Nat) (hadd : AddOk base n addF)
     (hbase : 1 ≤ base) (msgs : List Msg) (modes modes' : List Bool)
     (hv : ∀ m ∈ msgs, ValidMsg base n m) (hc : Complete base n msgs)
     (hm : n ≤ modes.length) (hm' : n ≤ modes'.length) :
@@ -383,30 +413,42 @@ theorem converges_same (addF : Blk → BlockCache → BlockCache) (hadd : AddCor
           x ∈ (runMsgs addF q (initNode base) (inOrder base n ++ modes'.map Msg.tick)).chain.known) ∧
     currentHeight (runMsgs addF q (initNode base) (msgs ++ modes.map Msg.tick)).chain =
       currentHeight (runMsgs addF q (initNode base) (inOrder base n ++ modes'.map Msg.tick)).chain := by
-  obtain ⟨a1, a2⟩ := converges addF hadd base n q hbase msgs modes hv hc hm
-  obtain ⟨b1, b2⟩ := converges addF hadd base n q hbase (inOrder base n) modes'
+  obtain ⟨a1, a2⟩ := converges addF base n q hadd hbase msgs modes hv hc hm
+  obtain ⟨b1, b2⟩ := converges addF base n q hadd hbase (inOrder base n) modes'
     (inOrder_valid_complete base n).1 (inOrder_valid_complete base n).2 hm'
   exact ⟨fun x => by rw [a1 x, b1 x], by rw [a2, b2]⟩
 
-/-- **converges_fixed**: the instance for the repaired cache. -/
+/-- **converges_live** (HEADLINE): the receive loop with the `Add` of /repo as it is now (`addLive 10240`:
+    repaired middle insert, flush beyond 10240 entries).  For a segment of at most 10240 blocks the flush
+    never fires (`addLive_ok`: a well-formed cache whose entries lie inside the segment has at most `n`
+    entries; since commit 6f06589 `Iterate` drops emptied entries, and even the entries it used to leave
+    behind lie inside the segment). -/
+theorem converges_live (base n q : Nat) (hbase : 1 ≤ base) (hn : n ≤ 10240) (msgs : List Msg) (modes : List Bool)
+    (hv : ∀ m ∈ msgs, ValidMsg base n m) (hc : Complete base n msgs) (hm : n ≤ modes.length) :
+    (∀ x, x ∈ (runMsgs (addLive 10240) q (initNode base) (msgs ++ modes.map Msg.tick)).chain.known ↔
+        ∃ k, k ≤ n ∧ x = seg base k) ∧
+    currentHeight (runMsgs (addLive 10240) q (initNode base) (msgs ++ modes.map Msg.tick)).chain = base + n :=
+  converges (addLive 10240) base n q (addLive_ok base n 10240 hn) hbase msgs modes hv hc hm
+
+/-- the instance for `addFixed` (no size limit at all) -/
 theorem converges_fixed (base n q : Nat) (hbase : 1 ≤ base) (msgs : List Msg) (modes : List Bool)
     (hv : ∀ m ∈ msgs, ValidMsg base n m) (hc : Complete base n msgs) (hm : n ≤ modes.length) :
     currentHeight (runMsgs addFixed q (initNode base) (msgs ++ modes.map Msg.tick)).chain = base + n :=
-  (converges addFixed addFixed_correct base n q hbase msgs modes hv hc hm).2
+  (converges addFixed base n q (addFixed_ok base n) hbase msgs modes hv hc hm).2
 
 def witnessDelivery : List Msg :=
   [.blocks [seg 5 2, seg 5 4, seg 5 5], .blocks [seg 5 3], .blocks [seg 5 1]]
 
-/-- **converges_refuted** (code before commit bca2980): with the cache as it was coded, the delivery  {2,4,5} | 3 | 1  of the segment 1..5
-    (every block delivered, valid) loses block 5 in `Add`: after any number of drain ticks the head stays at
-    block 4 and the cache is empty, while the repaired cache reaches block 5.
-    (Was reproduced on the real ProtocolManager by `hx c20`, signature c20/sync-diverged; the oracle is
-    silent since the commit, and fires again when the commit is reverted.) -/
+/-- **converges_refuted** (code before commit bca2980): with the cache as it was coded, the delivery
+    {2,4,5} | 3 | 1  of the segment 1..5 (every block delivered, valid) loses block 5 in `Add`: after any
+    number of drain ticks the head stays at block 4 and the cache is empty, while the repaired cache
+    reaches block 5.  (Was reproduced on the real ProtocolManager by `hx c20`, signature c20/sync-diverged;
+    the oracle is silent since the commit, and fires again when the commit is reverted.) -/
 theorem converges_refuted :
     (∀ m ∈ witnessDelivery, ValidMsg 5 5 m) ∧
     currentHeight (runMsgs add 1 (initNode 5) (witnessDelivery ++ (List.replicate 8 false).map Msg.tick)).chain = 9 ∧
     size (runMsgs add 1 (initNode 5) (witnessDelivery ++ (List.replicate 8 false).map Msg.tick)).bc = 0 ∧
-    currentHeight (runMsgs addFixed 1 (initNode 5) (witnessDelivery ++ (List.replicate 8 false).map Msg.tick)).chain = 10 := by
+    currentHeight (runMsgs (addLive 10240) 1 (initNode 5) (witnessDelivery ++ (List.replicate 8 false).map Msg.tick)).chain = 10 := by
   refine ⟨?_, by decide, by decide, by decide⟩
   intro m hm
   simp only [witnessDelivery, List.mem_cons, List.mem_nil_iff, or_false] at hm
@@ -425,6 +467,167 @@ theorem converges_refuted :
     simp only [List.mem_cons, List.mem_nil_iff, or_false] at hb
     subst hb
     exact ⟨1, by omega, by omega, rfl⟩
+
+/-! ### confirmations and the stable block -/
+
+theorem init_ci (base n : Nat) : CI base n [] (initNode base) := by
+  refine ⟨keyOK_nil, ?_, ?_, ?_, ?_, ?_, ?_, ?_⟩ <;> simp [initNode, ccMem, alGet]
+
+theorem valid_ticks (base n : Nat) (msgs : List Msg) (modes : List Bool) (hv : ∀ m ∈ msgs, ValidMsgC base n m) :
+    ∀ m ∈ msgs ++ modes.map Msg.tick, ValidMsgC base n m := by
+  intro m hm
+  rcases List.mem_append.mp hm with h | h
+  · exact hv m h
+  · obtain ⟨a, _, rfl⟩ := List.mem_map.mp h
+    trivial
+
+/-- **confirms_converge**: deliver the blocks of the segment in any order/duplication/batching and any
+    confirmations of its blocks at any point — before their block ("early", through the confirm cache and
+    `mergeConfirmsFromCache`) or after it (`InsertConfirms`) — interleaved with ticks and stable events
+    (whose `Clear` never removes a confirmation still needed).  After the drain the chain has attached
+    EXACTLY the delivered confirmations: none lost, none invented. -/
+theorem confirms_converge (addF : Blk → BlockCache → BlockCache) (base n q : Nat) (hadd : AddOk base n addF)
+    (hbase : 1 ≤ base) (hn : n ≤ 10240) (msgs : List Msg) (modes : List Bool)
+    (hv : ∀ m ∈ msgs, ValidMsgC base n m) (hc : Complete base n msgs) (hm : n ≤ modes.length) :
+    ∀ p, p ∈ (runMsgs addF q (initNode base) (msgs ++ modes.map Msg.tick)).chain.attached ↔
+      ∃ d ∈ confs msgs, d.hash = p.1 ∧ d.sig = p.2 := by
+  have hci := run_ci addF base n q hadd hbase hn (msgs ++ modes.map Msg.tick) [] (initNode base)
+    (init_inv base n) (init_ci base n) (valid_ticks base n msgs modes hv)
+  rw [confs_append, confs_ticks, List.append_nil, List.append_nil] at hci
+  obtain ⟨hk, _⟩ := converges addF base n q hadd hbase msgs modes (fun m hm => validMsgC_valid (hv m hm)) hc hm
+  intro p
+  constructor
+  · exact hci.att_sound p
+  · rintro ⟨d, hd, e1, e2⟩
+    obtain ⟨k, _, hkn, e3, _⟩ := hci.dvalid d hd
+    have := hci.att_complete d hd ((hk _).mpr ⟨d.hash, by omega, rfl⟩)
+    have ep : p = (d.hash, d.sig) := by rw [e1, e2]
+    rw [ep]; exact this
+
+/-- **stable_converges**: two complete deliveries of the same segment that carry the same confirmations (in
+    whatever order, early or late) end with the same stable height — for the abstract chain whose stable block
+    is the highest known block with at least `q` distinct confirmations. -/
+theorem stable_converges (addF : Blk → BlockCache → BlockCache) (base n q : Nat) (hadd : AddOk base n addF)
+    (hbase : 1 ≤ base) (hn : n ≤ 10240) (msgs msgs' : List Msg) (modes modes' : List Bool)
+    (hv : ∀ m ∈ msgs, ValidMsgC base n m) (hc : Complete base n msgs) (hm : n ≤ modes.length)
+    (hv' : ∀ m ∈ msgs', ValidMsgC base n m) (hc' : Complete base n msgs') (hm' : n ≤ modes'.length)
+    (hsame : ∀ d, d ∈ confs msgs ↔ d ∈ confs msgs') :
+    stableHeight q (runMsgs addF q (initNode base) (msgs ++ modes.map Msg.tick)).chain =
+      stableHeight q (runMsgs addF q (initNode base) (msgs' ++ modes'.map Msg.tick)).chain := by
+  apply stableHeight_congr
+  · intro x
+    rw [(converges addF base n q hadd hbase msgs modes (fun m hm => validMsgC_valid (hv m hm)) hc hm).1 x,
+      (converges addF base n q hadd hbase msgs' modes' (fun m hm => validMsgC_valid (hv' m hm)) hc' hm').1 x]
+  · intro p
+    rw [confirms_converge addF base n q hadd hbase hn msgs modes hv hc hm p,
+      confirms_converge addF base n q hadd hbase hn msgs' modes' hv' hc' hm' p]
+    constructor
+    · rintro ⟨d, hd, e⟩; exact ⟨d, (hsame d).mp hd, e⟩
+    · rintro ⟨d, hd, e⟩; exact ⟨d, (hsame d).mpr hd, e⟩
+
+/-- the in-order reference node: blocks ascending, then every confirmation (each after its block) -/
+def inOrderWith (base n : Nat) (cs : List Confirm) : List Msg := inOrder base n ++ cs.map Msg.confirm
+
+theorem confs_inOrder (base n : Nat) : confs (inOrder base n) = [] := by
+  unfold inOrder
+  induction List.range n with
+  | nil => rfl
+  | cons a l ih => simp [confs, ih]
+
+theorem confs_map_confirm (cs : List Confirm) : confs (cs.map Msg.confirm) = cs := by
+  induction cs with
+  | nil => rfl
+  | cons d l ih => simp [confs, ih]
+
+/-- **converges_same_stable** (HEADLINE, with `converges_live`): with the `Add` of /repo, ANY complete delivery
+    ends with the same stable height as the in-order node that got the same confirmations after the blocks. -/
+theorem converges_same_stable (base n q : Nat) (hbase : 1 ≤ base) (hn : n ≤ 10240) (msgs : List Msg)
+    (modes modes' : List Bool) (hv : ∀ m ∈ msgs, ValidMsgC base n m) (hc : Complete base n msgs)
+    (hm : n ≤ modes.length) (hm' : n ≤ modes'.length) :
+    stableHeight q (runMsgs (addLive 10240) q (initNode base) (msgs ++ modes.map Msg.tick)).chain =
+      stableHeight q (runMsgs (addLive 10240) q (initNode base)
+        (inOrderWith base n (confs msgs) ++ modes'.map Msg.tick)).chain := by
+  have hvo : ∀ m ∈ inOrderWith base n (confs msgs), ValidMsgC base n m := by
+    intro m hmm
+    rcases List.mem_append.mp hmm with h | h
+    · have := (inOrder_valid_complete base n).1 m h
+      obtain ⟨i, _, rfl⟩ := List.mem_map.mp h
+      exact this
+    · obtain ⟨d, hd, rfl⟩ := List.mem_map.mp h
+      -- a confirmation of `msgs` is valid because `msgs` is
+      have : ∀ (ms : List Msg), (∀ m ∈ ms, ValidMsgC base n m) → ∀ d ∈ confs ms, VC base n d := by
+        intro ms
+        induction ms with
+        | nil => intro _ d hd; simp [confs] at hd
+        | cons m l ih =>
+          intro hvl d hd
+          rw [confs_cons] at hd
+          rcases List.mem_append.mp hd with h1 | h1
+          · cases m with
+            | confirm d' =>
+              simp [confs] at h1; subst h1
+              exact hvl (.confirm d) (by simp)
+            | blocks _ => simp [confs] at h1
+            | tick _ => simp [confs] at h1
+            | stable => simp [confs] at h1
+          · exact ih (fun m' hm' => hvl m' (by simp [hm'])) d h1
+      exact this msgs hv d hd
+  have hco : Complete base n (inOrderWith base n (confs msgs)) := by
+    intro k h1 h2
+    obtain ⟨bs, hbs, hk⟩ := (inOrder_valid_complete base n).2 k h1 h2
+    exact ⟨bs, List.mem_append_left _ hbs, hk⟩
+  apply stable_converges (addLive 10240) base n q (addLive_ok base n 10240 hn) hbase hn msgs _ modes modes'
+    hv hc hm hvo hco hm'
+  intro d
+  unfold inOrderWith
+  rw [confs_append, confs_inOrder, confs_map_confirm, List.nil_append]
+
+/-! ### schedules outside the sequential semantics: witnesses for the code before the repair commits, and what
+     the repaired code does on the same schedule (the harness runs these schedules on the real
+     ProtocolManager: `race …` ops) -/
+
+def node5 : Node := initNode 5
+
+/-- **confirm_during_insert_refuted** (code before commit 8f95517, `fix = false`): a confirm handled by the
+    peer goroutine while `chain.InsertBlock` of its block is running is pushed AFTER the pop; it stays in the
+    confirm cache and never reaches the chain.  With the repair (`fix = true`) it is attached. -/
+theorem confirm_during_insert_refuted :
+    (pmInsertG false [{ hash := 1, height := 6, sig := 7 }] node5 (seg 5 1)).1.chain.attached = [] ∧
+    ccSize (pmInsertG false [{ hash := 1, height := 6, sig := 7 }] node5 (seg 5 1)).1.cc = 1 ∧
+    (pmInsertG true [{ hash := 1, height := 6, sig := 7 }] node5 (seg 5 1)).1.chain.attached = [(1, 7)] ∧
+    ccSize (pmInsertG true [{ hash := 1, height := 6, sig := 7 }] node5 (seg 5 1)).1.cc = 0 := by decide
+
+/-- … and the other half of the window: `HasBlock` answered false, the insert finished, then the push -/
+theorem confirm_stale_check_refuted :
+    let nd := (pmInsertG true [] node5 (seg 5 1)).1
+    (rcvConfirmStale false nd { hash := 1, height := 6, sig := 7 }).chain.attached = [] ∧
+    (rcvConfirmStale true nd { hash := 1, height := 6, sig := 7 }).chain.attached = [(1, 7)] := by decide
+
+/-- **duplicate_insert_break_refuted** (code before commit 2ae7988): block 2 waits in the cache, the timer
+    hands it to `go pm.insertBlock`, a peer re-sends `[2,3]`; the goroutine wins, the loop's insert of 2
+    fails with "exists" and the loop drops block 3: it is neither cached nor inserted.  With the repair the
+    loop goes on and inserts 3. -/
+theorem duplicate_insert_break_refuted :
+    let n1 := rcvBlocksG true none (addLive 10240) 1 (rcvBlocksG true none (addLive 10240) 1 node5 [seg 5 2]) [seg 5 1]
+    let n2 : Node := { n1 with bc := (iterateP true (fun pend b => tickLater n1.chain pend b) [] n1.bc).2.1 }
+    (rcvBlocksG false (some 2) (addLive 10240) 1 n2 [seg 5 2, seg 5 3]).chain.known.map (·.hash) = [2, 1, 0] ∧
+    size (rcvBlocksG false (some 2) (addLive 10240) 1 n2 [seg 5 2, seg 5 3]).bc = 0 ∧
+    (rcvBlocksG true (some 2) (addLive 10240) 1 n2 [seg 5 2, seg 5 3]).chain.known.map (·.hash) = [3, 2, 1, 0] := by
+  decide
+
+/-- **timer_request_refuted** (code before commits 6f06589 and 2d092b8): blocks 3 and 5 cached, 1 and 2
+    inserted, 3 drained; the cache holds only block 5 (height 10), the only peer's head is height 10.
+    Before: the emptied entry of height 8 stays first, the timer asks for height 7 (already inserted).
+    With pruning only: `BestToSync(10)` finds no peer STRICTLY above 10 and asks nobody.
+    Now: it asks for height 9, the missing parent. -/
+theorem timer_request_refuted :
+    let r := rcvBlocksG true none (addLive 10240) 1
+    let nd := r (r (r node5 [seg 5 3]) [seg 5 5]) [seg 5 1, seg 5 2]
+    let t := fun (pr eq : Bool) => (tickG pr eq true (tickG pr eq true nd)).requests.take 1
+    firstHeight (tickG false false true nd).bc = 8 ∧ t false false = [7] ∧
+    firstHeight (tickG true false true nd).bc = 10 ∧
+    (tickG true false true (tickG true false true nd)).requests.length = (tickG true false true nd).requests.length ∧
+    t true true = [9] := by decide
 
 /-! ## handleTxsMsg -/
 
@@ -483,6 +686,11 @@ theorem txs_exactly_once (valid : Nat → Bool) (pool txs : List Nat) (hp : pool
   refine ⟨foldl_poolAdd_nodup _ _ hp, fun t => ?_⟩
   rw [foldl_poolAdd_mem]
   simp [List.mem_filter]
+
+/-- every valid occurrence in the batch gets exactly one `AddTx` call (what the `txs` driver op prints as
+    `calls=`); the pool's own duplicate check then gives `txs_exactly_once` -/
+theorem txs_one_call_each (valid : Nat → Bool) (txs : List Nat) :
+    txsReach valid true txs = txs.filter valid := by simp [txsReach]
 
 /-- **txs_loopvar_refuted** (code before commit b496d03): ONE loop variable shared by the goroutines (Go < 1.22 semantics selected by
     `go 1.14` in /repo/go.mod), goroutines scheduled after the loop: of three valid txs only the last one
